@@ -312,6 +312,16 @@ class _Tests(ast.NodeTransformer):
             if mir is not None:
                 self.changed = True
                 return ast.copy_location(ast.Compare(left=t.comparators[0], ops=[mir()], comparators=[t.left]), t)
+        # (a, b) != (c, d)  ->  a != c or b != d ;   (a, b) == (c, d)  ->  a == c and b == d
+        if isinstance(t, ast.Compare) and len(t.ops) == 1 and isinstance(t.ops[0], (ast.Eq, ast.NotEq)) and \
+                isinstance(t.left, ast.Tuple) and isinstance(t.comparators[0], ast.Tuple) and \
+                len(t.left.elts) == len(t.comparators[0].elts) and 2 <= len(t.left.elts) <= 4 and \
+                not any(isinstance(e, ast.Starred) for e in t.left.elts + t.comparators[0].elts):
+            self.changed = True
+            parts = [ast.Compare(left=a, ops=[type(t.ops[0])()], comparators=[b])
+                     for a, b in zip(t.left.elts, t.comparators[0].elts)]
+            op = ast.And() if isinstance(t.ops[0], ast.Eq) else ast.Or()
+            return ast.copy_location(ast.BoolOp(op=op, values=[self._test(p_) for p_ in parts]), t)
         # A - B <op> 0  ->  A <op> B
         if isinstance(t, ast.Compare) and len(t.ops) == 1 and isinstance(t.left, ast.BinOp) and \
                 isinstance(t.left.op, ast.Sub) and isinstance(t.comparators[0], ast.Constant) and \
